@@ -46,11 +46,24 @@
 (* (MC_Debtags_shallow.cfg: Copy, then Insert under an existing tag).      *)
 (* Sources of derivations documented as "sharing" are out of the domain.   *)
 (*                                                                         *)
+(* Failing reads: a read() whose input iterator or tag_filter raises, or a  *)
+(* qread() of a truncated pickle, is part of a history too: the exception  *)
+(* propagates and the object stays consistent -- unchanged, or what reading *)
+(* a line prefix gives (which of them is unspecified).  ReadFails(lines,    *)
+(* drop, k) / QReadFails(lines, stage) transcribe what the code does:       *)
+(* read() builds both dictionaries aside and binds them in one tuple        *)
+(* assignment that is never reached (unchanged).  Negative control          *)
+(* NonAtomicRead (self.db bound first and filled while streaming, self.rdb  *)
+(* = reverse(db) after the loop): TLC reports Inverse violated              *)
+(* (MC_Debtags_nonatomic.cfg).  qread() binds self.db and self.rdb in two   *)
+(* statements: the named deviation QReadBindsDbFirst, OFF in the property   *)
+(* configurations, ON in MC_Debtags_qread.cfg -> Inverse violated.          *)
+(*                                                                         *)
 (* Configurations: MC_Debtags.cfg (closed, 3 packages x 3 tags),           *)
 (* MC_Debtags_lts.cfg (same + EDGE/STATE emission), _lts_small (2 packages *)
 (* x 3 tags, the LTS replayed by the quick tier), _big (4 packages),       *)
 (* _src (2 packages x 3 tags with the retained source, SrcSteps = 2),      *)
-(* _dev and _shallow (negative controls).                                  *)
+(* _dev, _shallow, _nonatomic, _qread (negative controls).                 *)
 (*                                                                         *)
 (* Domain (DESIGN D3 / section 5 C20): inserts use fresh package names;    *)
 (* read() gets each package on one line only; facet_collection is applied  *)
@@ -71,6 +84,8 @@ CONSTANTS PK,          \* package names offered by the model configuration
           ReadDrops,   \* tag sets offered as read(tag_filter=...): the tags the filter drops
           ReReadKeys,  \* packages used for "read() over a non-empty database" (replaces, never merges)
           InsertNewTagStoresChars,   \* the named deviation (BOOLEAN)
+          NonAtomicRead,     \* negative control: read() binds self.db first, self.rdb after the loop
+          QReadBindsDbFirst, \* named deviation: qread() binds self.db, then self.rdb (two statements)
           ShallowCopy, \* negative control: copy()/reverse_copy() share the set objects with the source
           SrcSteps,    \* the source of a copy stays observed for this many further calls (0: never)
           Emit         \* TRUE: print EDGE / STATE lines (the complete LTS of the reference)
@@ -138,6 +153,20 @@ IReadFrom(lines, i, drop, st) ==
                       ELSE st.rdb[t]]
         IN IReadFrom(lines, i + 1, drop, [db |-> d1, rdb |-> r1])
 IRead(lines, drop) == IReadFrom(lines, 1, drop, IEmpty)    \* self.db, self.rdb = ... (replaces)
+
+\* a read() that raises after k complete lines (the input raises, or tag_filter raises while line k+1
+\* is filtered): the tuple assignment is never reached and the object is unchanged.
+\* nonatomic (negative control): db = self.db = {} is bound first and filled while streaming,
+\* self.rdb = reverse(db) is only reached after the loop
+IReadFails(st, lines, drop, k, nonatomic) ==
+   IF nonatomic THEN [db |-> IRead(SubSeq(lines, 1, k), drop).db, rdb |-> st.rdb] ELSE st
+\* qread(file) failing while the 1st (stage 0) / the 2nd (stage 1) pickle is loaded; new = the pickled
+\* collection.  dbfirst: self.db = pickle.load(file) is already bound when the second load raises
+IQReadFails(st, new, stage, dbfirst) ==
+   IF dbfirst /\ stage = 1 THEN [db |-> new.db, rdb |-> st.rdb] ELSE st
+\* what a failed read may leave behind: the old collection or a consistent prefix collection
+IReadFailsAllowed(st, lines, drop, k) == {st} \cup {IRead(SubSeq(lines, 1, j), drop) : j \in 0..k}
+AReadFailsAllowed(a, lines, drop, k)  == {a} \cup {ARead(SubSeq(lines, 1, j), drop) : j \in 0..k}
 
 \* DB.insert(pkg, tags); dev = TRUE is what the code does today for a new tag: set((pkg))
 IInsert(st, p, S, dev) ==
@@ -285,6 +314,28 @@ FilterTags(S)     == /\ SetAbs(ARestrictT(Abs, S))
                      /\ Edge("filter_t", <<>>, S, <<>>)
                      /\ LET st2 == IFilterT(Impl, S)
                         IN SetImpl(st2) /\ \E share \in BOOLEAN : KeepSrc(src, LRestrictRdb(al, st2, share), st2)
+\* the reference outcome of a failed read: the exception propagates and the object is one of the
+\* allowed consistent collections; if the implementation leaves anything else the reference
+\* stays where it was and Refines / Inverse fail
+AfterFailure(st2, allowed) == IF InverseOf(st2) /\ AbsOf(st2) \in allowed THEN AbsOf(st2) ELSE Abs
+EdgeF(op, lines, k, allowed) ==
+   Emit => PrintT(<<"EDGE", ToJson([from |-> Abs, op |-> op, a |-> <<>>, s |-> {}, lines |-> lines, k |-> k,
+                                     allowed |-> allowed, to |-> AbsNext])>>)
+ReadFails(lines, drop, k) ==
+   LET st2     == IReadFails(Impl, lines, drop, k, NonAtomicRead)
+       allowed == AReadFailsAllowed(Abs, lines, drop, k)
+   IN /\ SetAbs(AfterFailure(st2, allowed))
+      /\ EdgeF("read_fails", lines, k, allowed)
+      /\ SetImpl(st2)
+      /\ KeepSrc(src, IF st2 = Impl THEN al ELSE [db |-> NoAlias(st2).db, rdb |-> al.rdb], st2)
+QReadFails(lines, stage) ==
+   LET new     == IRead(lines, {})
+       st2     == IQReadFails(Impl, new, stage, QReadBindsDbFirst)
+       allowed == {Abs, ARead(lines, {})}
+   IN /\ SetAbs(AfterFailure(st2, allowed))
+      /\ EdgeF("qread_fails", lines, stage, allowed)
+      /\ SetImpl(st2)
+      /\ KeepSrc(src, IF st2 = Impl THEN al ELSE [db |-> NoAlias(st2).db, rdb |-> al.rdb], st2)
 FacetCollection   == /\ AFacetDomain(Abs)
                      /\ SetAbs(AFacet(Abs))
                      /\ Edge("facet", <<>>, {}, <<>>)
@@ -303,6 +354,9 @@ LinesOf(c) == LET vals == {c[k] : k \in DOMAIN c}
 Pristine  == P = {} /\ T = {}
 
 ReReadTag == CHOOSE t \in FT : TRUE
+\* the two-line input of the failing reads: "k: t" and "k2: t2" (other package, other tag)
+FailLines == <<[pkgs |-> ReReadKeys, tags |-> {ReReadTag}],
+               [pkgs |-> {CHOOSE p \in PK \ ReReadKeys : TRUE}, tags |-> {CHOOSE t \in FT \ {ReReadTag} : TRUE}]>>
 Next == \/ \E K \in SUBSET PK : \E c \in [K -> SUBSET FT] :
               \/ Pristine /\ \E d \in ReadDrops : Read(LinesOf(c), d)
               \/ ~Pristine /\ K = ReReadKeys /\ (\A k \in K : c[k] = {ReReadTag}) /\ Read(LinesOf(c), {})
@@ -311,6 +365,8 @@ Next == \/ \E K \in SUBSET PK : \E c \in [K -> SUBSET FT] :
         \/ \E S \in SUBSET P : RestrictPackages(S, KeyPool \ P)
         \/ \E S \in SUBSET T : FilterTags(S)
         \/ FacetCollection
+        \/ \E k \in 0..Len(FailLines) : ReadFails(FailLines, {}, k)
+        \/ \E stage \in {0, 1} : QReadFails(FailLines, stage)
 
 Spec == Init /\ [][Next]_vars
 
